@@ -61,6 +61,7 @@ PARENT_SIMPLE = [
     ('loop.remove_reader(rx.fileno())', 'PRemoveReader'),
     ('event.clear()', 'PClearEvent'),
     ('process.join()', 'PJoin'),
+    ('process.kill()', 'PKill'),
     ('rx.close()', 'PCloseRx'),
     ('if isinstance(result, SubprocessError):\n    raise result.exception', 'PRaiseIfError'),
     ('return result', 'PReturn'),
@@ -80,6 +81,27 @@ def parent_op(s):
         return 'PRequirePipe'
     if same(s, 'result = rx.recv()'):
         return 'PRecv []'
+    if isinstance(s, ast.Try) and len(s.body) == 1 and same(s.body[0], 'if not rx.poll():\n    await event.wait()'):
+        # try: <the wait> except BaseException | asyncio.CancelledError: <simple statements>; raise
+        # -> PIfNotPollWaitH n, the n ops of the handler body, PReraise (the normal path jumps over them)
+        if s.orelse or s.finalbody or len(s.handlers) != 1:
+            raise Untranslatable(UNIT, f'calculate_in_subprocess: the try around the wait is not try/except with one handler (line {s.lineno})')
+        h = s.handlers[0]
+        t = h.type
+        catches_cancel = t is None or is_name(t, 'BaseException') or dump(t) == dump(ast.parse('asyncio.CancelledError').body[0].value)
+        if not catches_cancel:
+            raise Untranslatable(UNIT, f'calculate_in_subprocess: the handler around the wait does not catch CancelledError (line {h.lineno})')
+        if not h.body or not (isinstance(h.body[-1], ast.Raise) and h.body[-1].exc is None and h.body[-1].cause is None):
+            raise Untranslatable(UNIT, f'calculate_in_subprocess: the handler around the wait does not end with a bare raise (line {h.lineno})')
+        ops = []
+        for x in h.body[:-1]:
+            if isinstance(x, ast.Try):
+                raise Untranslatable(UNIT, f'calculate_in_subprocess: nested try in the handler around the wait at line {x.lineno}')
+            o = parent_op(x)
+            if isinstance(o, list) or o in ('PIfNotPollWait', 'PReturn', 'PRaiseIfError') or o.startswith('PRecv'):
+                raise Untranslatable(UNIT, f'calculate_in_subprocess: unsupported statement in the handler around the wait at line {x.lineno}')
+            ops.append(o)
+        return [f'PIfNotPollWaitH {len(ops)}'] + ops + ['PReraise']
     if isinstance(s, ast.Try):
         if s.orelse or not (s.handlers or s.finalbody):
             raise Untranslatable(UNIT, f'calculate_in_subprocess: try statement with else / without handlers at line {s.lineno}')
@@ -183,7 +205,7 @@ def translate():
         o = parent_op(st)
         pops += o if isinstance(o, list) else [o]
     n_await = len([n for n in ast.walk(f) if isinstance(n, (ast.Await, ast.AsyncFor, ast.AsyncWith, ast.Yield, ast.YieldFrom))])
-    only_wait_awaits = n_await == pops.count('PIfNotPollWait')
+    only_wait_awaits = n_await == len([o for o in pops if o.startswith('PIfNotPollWait')])
 
     # ---- child -----------------------------------------------------------------------------------------------
     if not isinstance(inner, ast.FunctionDef) or inner.decorator_list:
